@@ -112,7 +112,12 @@ func c12Const(e *Env) {
 		var sizeVar *types.Var
 		for _, st := range fi.Decl.Body.List {
 			if is, ok := st.(*ast.IfStmt); ok {
-				if be, ok := unparen(is.Cond).(*ast.BinaryExpr); ok && be.Op == token.GEQ && usesConst(info, be.Y, ac) && isConstInt(info, be.Y, int(av)) && terminates(is.Body) {
+				be0, _ := unparen(is.Cond).(*ast.BinaryExpr)
+				// `size >= int(AbortIndex)` or, with swapped operands, `int(AbortIndex) <= size`
+				if be0 != nil && be0.Op == token.LEQ {
+					be0 = &ast.BinaryExpr{X: be0.Y, Op: token.GEQ, Y: be0.X, OpPos: be0.OpPos}
+				}
+				if be, ok := be0, be0 != nil; ok && be.Op == token.GEQ && usesConst(info, be.Y, ac) && isConstInt(info, be.Y, int(av)) && terminates(is.Body) {
 					if es, ok := is.Body.List[len(is.Body.List)-1].(*ast.ExprStmt); ok {
 						if c, ok := es.X.(*ast.CallExpr); ok && isBuiltin(info, c, "panic") {
 							guard = true
@@ -211,7 +216,16 @@ func c12Index(e *Env) {
 					n++
 					k++
 					v, isC := constInt(info, x.Value)
-					r.Check(isC && v == -1, rule, fmt.Sprintf("%s:literal#%d", fname, k), w.Pos(x.Pos()), "constructor starts the index at -1", "struct literal sets index to something other than -1")
+					// the same two values an assignment may store: -1 (fresh) or the AbortIndex
+					// constant (the detached copy made by Copy never runs handlers)
+					isAbort := false
+					switch y := unparen(x.Value).(type) {
+					case *ast.Ident:
+						isAbort = info.Uses[y] == ac
+					case *ast.SelectorExpr:
+						isAbort = info.Uses[y.Sel] == ac
+					}
+					r.Check((isC && v == -1) || isAbort, rule, fmt.Sprintf("%s:literal#%d", fname, k), w.Pos(x.Pos()), "a struct literal starts the index at -1 or AbortIndex", "struct literal sets index to something other than -1 / AbortIndex")
 				}
 			}
 			return true
